@@ -28,9 +28,9 @@ RULE = ('Generated experiment frames in both cost scenarios (fixed: pre-period a
 ASSUMPTIONS = ['tails=1 with level < 0.5 ordering failures are classified under the known-finding key one-sided-level-below-half',
                'variable-cost cases with |incremental cost / its posterior scale| < 8 are skipped (ratio of t variables too heavy-tailed)']
 EXHAUSTIVE = {'quick': False, 'thorough': False}
-MINIMA = {'quick': {'fixed_with_cooldown_spend': 15, 'equivariance_extreme_units': 30, 'mixed_cost_cases': 100, 'refits': 80, 'fixed_checked': 120, 'variable_checked': 200, 'equivariance_pairs': 400, 'determinism_pairs': 200,
+MINIMA = {'quick': {'fixed_with_cooldown_spend': 15, 'equivariance_extreme_units': 30, 'mixed_cost_cases': 100, 'refits': 80, 'fixed_checked': 120, 'variable_checked': 200, 'equivariance_pairs': 330, 'determinism_pairs': 200,
                     'distinct_nontrivial': 400},
-          'thorough': {'fixed_with_cooldown_spend': 200, 'equivariance_extreme_units': 400, 'mixed_cost_cases': 1500, 'refits': 1200, 'fixed_checked': 2000, 'variable_checked': 3000, 'equivariance_pairs': 6000, 'determinism_pairs': 3000,
+          'thorough': {'fixed_with_cooldown_spend': 200, 'equivariance_extreme_units': 400, 'mixed_cost_cases': 1500, 'refits': 1200, 'fixed_checked': 2000, 'variable_checked': 3000, 'equivariance_pairs': 5000, 'determinism_pairs': 3000,
                        'distinct_nontrivial': 6000}}
 N = {'quick': 640, 'thorough': 9000}
 NSIMS = {'quick': 2000, 'thorough': 10000}
